@@ -309,6 +309,14 @@ impl WalkEntry {
                     .map(|c| c.as_os_str())
                     .unwrap_or_else(|| path.as_os_str())
             }
+            // walkdir hands back the whole path for a starting point without a
+            // normal last component ("a/..", "//"): take the last component as above.
+            Entry::WalkDir(ent) if ent.depth() == 0 => ent
+                .path()
+                .components()
+                .next_back()
+                .map(|c| c.as_os_str())
+                .unwrap_or_else(|| ent.path().as_os_str()),
             Entry::WalkDir(ent) => ent.file_name(),
         }
     }
